@@ -53,6 +53,10 @@ def routes3(T0, T1, with_start, far_from_antipodal=True):
         "SE3.interp": (lambda s: SE3(T1, check=False).interp(s, SE3(T0, check=False) if with_start else None).A, True),
         "SO3.interp": (lambda s: b.r2t(SO3(R1, check=False).interp(s, SO3(R0, check=False) if with_start else None).A), False),
     }
+    # the end pose held as the SECOND value of an object holding two (scalar s: one result per held value)
+    Tx = T1 @ T1 @ T0
+    out["SE3([other,T1]).interp[1]"] = (lambda s: SE3([SE3(Tx, check=False), SE3(T1, check=False)]).interp(s, SE3(T0, check=False) if with_start else None)[1].A, True)
+    out["SO3([other,R1]).interp[1]"] = (lambda s: b.r2t(SO3([SO3(Tx[:3, :3], check=False), SO3(R1, check=False)]).interp(s, SO3(R0, check=False) if with_start else None)[1].A), False)
     if with_start:
         out["UnitQuaternion.interp(dest)"] = (lambda s: b.r2t(uq_to_R(q0.interp(s, dest=q1).vec)), False)
         out["UnitQuaternion.interp(dest,shortest)"] = (lambda s: b.r2t(uq_to_R(q0.interp(s, dest=q1, shortest=True).vec)), False)
@@ -94,6 +98,9 @@ def routes2(H0, H1, with_start):
         "base.trinterp2(R)": (lambda s: b.rt2tr(b.trinterp2(P0 if with_start else None, P1, s), [0, 0]), False),
         "SE2.interp": (lambda s: SE2(H1, check=False).interp(s, SE2(H0, check=False) if with_start else None).A, True),
         "SO2.interp": (lambda s: b.rt2tr(SO2(P1, check=False).interp(s, SO2(P0, check=False) if with_start else None).A, [0, 0]), False),
+        # the end pose held as the SECOND value of an object holding two (scalar s: one result per held value)
+        "SE2([other,T1]).interp[1]": (lambda s: SE2([SE2(H1 @ H1 @ H0, check=False), SE2(H1, check=False)]).interp(s, SE2(H0, check=False) if with_start else None)[1].A, True),
+        "SO2([other,R1]).interp[1]": (lambda s: b.rt2tr(SO2([SO2(P1 @ P1 @ P0, check=False), SO2(P1, check=False)]).interp(s, SO2(P0, check=False) if with_start else None)[1].A, [0, 0]), False),
     }
 
 
